@@ -53,7 +53,9 @@ Leaves == { S \in SUBSET (0..LeafMax) : S # {} /\ Cardinality(S) <= LeafCard }
 \* a few fixed depth-1 operands for the "other side" of a binary operator
 SideExtra == { RepT(Leaf({1, 2}), 2), RngT(Leaf({3}), 2), PadT(Leaf({1, 5}), 4), RngT(Leaf({1, 2}), 3),
                UniT(<<Leaf({0}), Leaf({7})>>) }
-Side == { Leaf(S) : S \in Leaves } \cup SideExtra
+\* two different sets that BitLengthSet's approximate equality (min, max, residues mod 32) cannot tell apart
+ApproxTwins == { Leaf({0, 64}), Leaf({0, 32, 64}) }
+Side == { Leaf(S) : S \in Leaves } \cup SideExtra \cup ApproxTwins
 
 Unary(t)  == { PadT(t, r) : r \in 1..RMax } \cup { RepT(t, k) : k \in 0..KMax } \cup { RngT(t, k) : k \in 0..KMax }
 Binary(t) == UNION { { CatT(<<t, s>>), CatT(<<s, t>>), UniT(<<t, s>>), UniT(<<s, t>>) } : s \in Side }
